@@ -23,7 +23,7 @@ TIERS = {"quick": dict(cases=900, shards=8, case_timeout=300, shard_timeout=1500
 FLOORS = {"quick": {"direct_values_checked": 1200, "mixed_state_values_checked": 600, "algebra_checks": 1000,
                     "run_values_recomputed": 800, "result_time_sets_checked": 400,
                     "off_grid_times_with_full_default": 20},
-          "thorough": {"direct_values_checked": 30000}}
+          "thorough": {"direct_values_checked": 20000, "off_grid_times_with_full_default": 300}}
 EIG = {2: [("r", "g"), ("g", "h"), ("u", "d")], 3: [("r", "g", "h")], 4: [("r", "g", "h", "x")]}
 ONE = {("r", "g"): "r", ("g", "h"): "h", ("u", "d"): "d"}
 
